@@ -15,6 +15,83 @@ pub fn str_to_cp(s: &str) -> J {
     J::Array(s.chars().map(|c| json!(c as u32)).collect())
 }
 
+fn fnv(s: &str, salt: u64) -> u64 {
+    let mut h: u64 = 0xcbf29ce484222325 ^ salt.wrapping_mul(0x9e3779b97f4a7c15);
+    for b in s.bytes() {
+        h = (h ^ b as u64).wrapping_mul(0x100000001b3);
+    }
+    h ^ (h >> 29)
+}
+
+/// A string literal denoting `s`, in one of the spellings the lexer accepts (chosen by a hash of
+/// the content and the line, so printing is deterministic): plain double quotes, single quotes,
+/// \xNN / \uNNNN / \UNNNNNNNN / octal escapes for every character, triple quotes, raw.  The
+/// VALUE is always `s`: the specification never sees the spelling (the lexer's escape handling is
+/// under test, not the specification).
+fn spell_str(s: &str, line: u64) -> String {
+    let h = fnv(s, line);
+    let plain_ok = s.chars().all(|c| (' '..='~').contains(&c) && c != '\\' && c != '"' && c != '\'');
+    match h % 16 {
+        0 | 1 => {
+            // single quotes
+            let mut o = String::from("'");
+            for c in s.chars() {
+                match c {
+                    '\'' => o.push_str("\\'"),
+                    '\\' => o.push_str("\\\\"),
+                    '\n' => o.push_str("\\n"),
+                    '\t' => o.push_str("\\t"),
+                    '\r' => o.push_str("\\r"),
+                    c => o.push(c),
+                }
+            }
+            o.push('\'');
+            o
+        }
+        2 if s.chars().all(|c| (c as u32) < 0x100) => format!("\"{}\"", s.chars().map(|c| format!("\\x{:02x}", c as u32)).collect::<String>()),
+        3 if s.chars().all(|c| (c as u32) < 0x10000) => format!("\"{}\"", s.chars().map(|c| format!("\\u{:04X}", c as u32)).collect::<String>()),
+        4 => format!("'{}'", s.chars().map(|c| format!("\\U{:08x}", c as u32)).collect::<String>()),
+        5 if s.chars().all(|c| (c as u32) < 0x100) => format!("\"{}\"", s.chars().map(|c| format!("\\{:03o}", c as u32)).collect::<String>()),
+        6 if !s.ends_with('"') => {
+            let q = quote(s);
+            format!("\"\"\"{}\"\"\"", &q[1..q.len() - 1])
+        }
+        7 if plain_ok => format!("r\"{}\"", s),
+        8 if plain_ok => format!("r'{}'", s),
+        9 if !s.ends_with('\'') => {
+            // triple single quotes
+            let mut o = String::from("\'\'\'");
+            for c in s.chars() {
+                match c {
+                    '\'' => o.push_str("\\'"),
+                    '\n' => o.push_str("\\n"),
+                    '\\' => o.push_str("\\\\"),
+                    '\t' => o.push_str("\\t"),
+                    '\r' => o.push_str("\\r"),
+                    c => o.push(c),
+                }
+            }
+            o.push_str("\'\'\'");
+            o
+        }
+        _ => quote(s),
+    }
+}
+
+/// An integer literal denoting `v` (decimal, hex, octal or binary; always parenthesised).
+fn spell_int(v: i64, line: u64) -> String {
+    let h = fnv(&v.to_string(), line);
+    let a = v.unsigned_abs();
+    let sign = if v < 0 { "-" } else { "" };
+    match h % 12 {
+        0 => format!("({}0x{:x})", sign, a),
+        1 => format!("({}0X{:X})", sign, a),
+        2 => format!("({}0o{:o})", sign, a),
+        3 => format!("({}0b{:b})", sign, a),
+        _ => format!("({})", v),
+    }
+}
+
 fn quote(s: &str) -> String {
     let mut o = String::from("\"");
     for c in s.chars() {
@@ -120,11 +197,9 @@ pub fn expr(e: &mut J, line: u64) -> String {
     e["line"] = json!(line);
     let k = e["k"].as_str().unwrap().to_owned();
     match k.as_str() {
-        "int" => {
-            // always parenthesised: `3.upper()` and `3 .real` are not what `(3).upper()` is
-            format!("({})", e["v"].as_i64().unwrap())
-        }
-        "str" => quote(&cp_to_string(&e["s"])),
+        // always parenthesised: `3.upper()` and `3 .real` are not what `(3).upper()` is
+        "int" => spell_int(e["v"].as_i64().unwrap(), line),
+        "str" => spell_str(&cp_to_string(&e["s"]), line),
         "none" => "None".to_owned(),
         "bool" => if e["b"].as_bool().unwrap() { "True".to_owned() } else { "False".to_owned() },
         "var" => e["n"].as_str().unwrap().to_owned(),
